@@ -63,14 +63,17 @@ func (c *Collection) Snapshot(dst io.Writer) error {
 		return err
 	}
 
+	simYield(c, simSnapshotPhase, 1)
 	// Take a snapshot of the current state
 	defer os.Remove(recorder.Name())
 	if _, err := c.writeState(s2.NewWriter(dst)); err != nil {
 		return err
 	}
 
+	simYield(c, simSnapshotPhase, 2)
 	// Close the recorder
 	c.recorderClose()
+	simYield(c, simSnapshotPhase, 3)
 	return recorder.Copy(dst)
 }
 
@@ -224,6 +227,7 @@ func (c *Collection) chunks() int {
 func (c *Collection) readChunk(chunk commit.Chunk, fn func(uint64, commit.Chunk, bitmap.Bitmap) error) error {
 
 	// Lock both the chunk and the fill list
+	simYield(c, simBeforeRLock, uint32(chunk))
 	c.slock.RLock(uint(chunk))
 	c.lock.Lock()
 	defer c.slock.RUnlock(uint(chunk))
